@@ -228,23 +228,32 @@ def fracMul : Nat → Option Nat
   | 1 => some 100000000 | 2 => some 10000000 | 3 => some 1000000 | 4 => some 100000 | 5 => some 10000
   | 6 => some 1000 | 7 => some 100 | 8 => some 10 | 9 => some 1 | _ => none
 
+/-- `OffsetDateTime::from_unix_timestamp_nanos` for a non-negative argument -/
+def epochFromNanos (nanos : Nat) : Option Ts :=
+  if ((nanos / 1000000000 : Nat) : Int) > unixMax then none
+  else some ⟨((nanos / 1000000000 : Nat) : Int), nanos % 1000000000, 0⟩
+
 def parseEpochSeconds (s : Bytes) : Option Ts :=
   match splitOnce 46 s with
-  | some (secs, frac) => do
-    let secs ← parseUnsignedStr 18446744073709551615 secs
-    if secs > 9223372036854775807 then none
-    let val ← parseUnsignedStr 4294967295 frac
-    let mul ← fracMul frac.length
-    -- `val * mul` is a u32 product (it cannot overflow: val < 10^k, mul = 10^(9-k))
-    let nanos : Nat := secs * 1000000000 + (val * mul) % 4294967296
-    let secs' : Int := ((nanos / 1000000000 : Nat) : Int)
-    if secs' > unixMax then none
-    some ⟨secs', nanos % 1000000000, 0⟩
-  | none => do
-    let secs ← parseUnsignedStr 18446744073709551615 s
-    if secs > 9223372036854775807 then none
-    if (secs : Int) > unixMax then none
-    some ⟨(secs : Int), 0, 0⟩
+  | some (secs, frac) =>
+    match parseUnsignedStr 18446744073709551615 secs with
+    | none => none
+    | some secs =>
+      if secs > 9223372036854775807 then none else
+      match parseUnsignedStr 4294967295 frac with
+      | none => none
+      | some val =>
+        match fracMul frac.length with
+        | none => none
+        -- `val * mul` is a u32 product (it cannot overflow: val < 10^k, mul = 10^(9-k))
+        | some mul => epochFromNanos (secs * 1000000000 + (val * mul) % 4294967296)
+  | none =>
+    match parseUnsignedStr 18446744073709551615 s with
+    | none => none
+    | some secs =>
+      if secs > 9223372036854775807 then none
+      else if (secs : Int) > unixMax then none
+      else some ⟨(secs : Int), 0, 0⟩
 
 def fmtInt (i : Int) : Bytes := (if i < 0 then [45] else []) ++ fmtDec i.natAbs
 
